@@ -32,6 +32,17 @@ def n_cases(tier):
 
 
 def one_case(rng, tier):
+    if rng.random() < 0.06:
+        # None / falsy / string / nested-tuple elements through the time-based nodes
+        from .. import aprogs
+        g = aprogs.XAGen(rng, max_nodes=6)
+        prog = g.program(min_async=1)
+        return {'family': 'async', 'prog': prog, 'producers': g.producers(prog, max_total=16),
+                'awaiting': rng.random() < 0.6, 'inputs': [], 'mode': 'vloop', 'exotic': True}
+    if rng.random() < 0.08:
+        xg = progs.XGen(rng, max_nodes=7)
+        prog = xg.program()
+        return {'prog': prog, 'inputs': xg.inputs(prog), 'mode': 'async' if rng.random() < 0.5 else 'plain', 'exotic': True}
     if rng.random() < 0.3:
         from .. import aprogs
         g = aprogs.AGen(rng, async_ops=aprogs.LOSSLESS_ASYNC + ['timed_window_unique'], max_nodes=7)
